@@ -13,7 +13,7 @@ The arrival order at the node (the schedule of the multiConsumer goroutines) is 
 quantified INPUT of every theorem below: `arrivals : List (parent × message)`.
 -/
 import Kap.Proofs.C12Union
-import Kap.Proofs.C12UnionSorted
+import Kap.Proofs.C12UnionSortedF
 import Kap.Proofs.C12Join
 import Kap.Proofs.C12PairK
 namespace Kap.Props.C12
@@ -109,15 +109,21 @@ model's fuel ran out (so the fuel is no restriction of the model). -/
 theorem union_fuel_enough (drain : Bool) (s : UState (WCQ UMsg)) : (Union.emitReadyAll drain s).2.2 = true :=
   Union.emitReady_ok drain _ s [] (by omega)
 
-/-- Full-strength statement of the remaining union clause (stated, NOT yet proved; checked on every run by
-the spec oracle on the implementation's output and by correspondence): when every parent delivers in time
-order, the output is in non-decreasing time order overall — for every interleaving. What is missing is the
-invariant "every emitted time ≤ the bound of every source (its head time, or its remembered low mark when
-empty), and a low mark is the time of an earlier message of that parent"; Proofs/C12UnionSorted.lean has the
-first step (`markLoop_false`: the mark is the minimum of those bounds). -/
-def union_sorted_stmt : Prop :=
-  ∀ (rename : String) (n : Nat) (arrivals : List (Nat × UMsg)), (∀ a ∈ arrivals, a.1 < n) →
-    parentsOrdered n arrivals → unionSorted (Union.run rename n arrivals : UState (WCQ UMsg) × _).2
+/-- **union_sorted** — for EVERY interleaving: when every parent delivers in time order, the output of the
+union node (arrivals, then Finish) is in non-decreasing time order overall. Invariant: every emitted time
+is at most the bound of every source (its head time, or its remembered low mark when empty), a low mark is
+the time of an earlier message of that parent, and each pass emits only messages whose time equals the mark. -/
+theorem union_sorted (rename : String) (n : Nat) (arrivals : List (Nat × UMsg)) (hs : ∀ a ∈ arrivals, a.1 < n)
+    (hord : parentsOrdered n arrivals) : unionSorted (Union.run rename n arrivals : UState (WCQ UMsg) × _).2 :=
+  Union.run_sorted (Q := WCQ UMsg) rename n arrivals hs hord
+
+/-- Non-vacuity, and the hypothesis matters: with parent 1 out of order the output is not sorted. -/
+example : parentsOrdered 2 [(1, ⟨5, 1, 0, "b"⟩), (0, ⟨4, 2, 0, "a"⟩), (1, ⟨9, 3, 0, "b"⟩), (0, ⟨5, 4, 0, "a"⟩)] ∧
+    ((Union.run "" 2 [(1, ⟨5, 1, 0, "b"⟩), (0, ⟨4, 2, 0, "a"⟩), (1, ⟨9, 3, 0, "b"⟩), (0, ⟨5, 4, 0, "a"⟩)] :
+      UState (WCQ UMsg) × _).2.map (fun p => p.2.time)) = [4, 5, 5, 9] := by decide
+theorem union_unordered_parent_not_sorted :
+    ¬ unionSorted (Union.run "" 2 [(1, ⟨9, 1, 0, "b"⟩), (1, ⟨5, 2, 0, "b"⟩), (0, ⟨9, 3, 0, "a"⟩)] : UState (WCQ UMsg) × _).2 := by
+  decide
 
 /-! ### Join -/
 
